@@ -28,8 +28,8 @@ ASSUMPTIONS = [
     "and the whole-raster sweep; any target at the minimal distance is accepted",
     "large enumerations run the library sources under the CPython interpreter (NUMBA_DISABLE_JIT=1); a compiled slice "
     "is compared case by case (traces validated against the compiled implementation)",
-    "GREAT_CIRCLE on Dask is exercised only in the conformance slice (the halo is computed from cell size in degrees "
-    "while max_distance is in metres: the documented single-block fallback is the only supported regime)",
+    "GREAT_CIRCLE on Dask: the halo is computed from the cell size in degrees while max_distance is in metres, so only small "
+    "max_distance values (halo within the raster) and the single-block fallback are in the domain; both are exercised",
 ]
 NAN = float("nan")
 SHAPE = (3, 4)
@@ -40,6 +40,10 @@ COORDS = {
     "unit_asc": (np.array([0.0, 1.0, 2.0]), np.array([0.0, 1.0, 2.0, 3.0])),
     "nonsquare": (np.array([10.0, 8.0, 6.0]), np.array([-1.0, -0.5, 0.0, 0.5])),     # cellsize_x 0.5, cellsize_y 2
     "xdesc_yasc": (np.array([0.0, 1.5, 3.0]), np.array([9.0, 6.0, 3.0, 0.0])),      # x descending, y ascending, 3 x 1.5 cells
+    # projected-metre coordinates: large magnitude, small cells, values not representable in float32
+    "utm_like": (4649776.25 - 0.3 * np.arange(3), 436000.15 + 0.3 * np.arange(4)),
+    # degrees for GREAT_CIRCLE (max_distance is in metres: a few metres reach only the target itself, the halo is still > 0)
+    "lonlat_deg": (np.array([41.0, 40.0, 39.0]), np.array([-1.0, 0.0, 1.0, 2.0])),
 }
 BOUNDS = {
     "quick": {"raster": [3, 4], "chunkings": 32, "max_targets": 2, "max_distance_cells": [0.4, 1, 1.4, 1.5, 2, 2.5, "extent", "inf"],
@@ -530,6 +534,10 @@ def build(tier):
                   ch_stride=2 if tier == "quick" else 1),
         HaloSpace(tier, "xdesc_yasc_cells_3x4", SHAPE, FUNCS, "xdesc_yasc", "EUCLIDEAN", [1.5, 3.0, 4.5], 1 if tier == "quick" else 2,
                   ch_stride=2 if tier == "quick" else 1),
+        HaloSpace(tier, "utm_like_coords_3x4", SHAPE, ("proximity", "direction"), "utm_like", "EUCLIDEAN", [0.3, 0.45, 0.75],
+                  1 if tier == "quick" else 2, ch_stride=2 if tier == "quick" else 1),
+        HaloSpace(tier, "great_circle_halo_3x4", SHAPE, FUNCS, "lonlat_deg", "GREAT_CIRCLE", [1.0, 2.5],
+                  1 if tier == "quick" else 2, ch_stride=2 if tier == "quick" else 1),
         NanSpace(tier),
         TargetValuesSpace(tier),
         SignedTargetsSpace(tier),
